@@ -203,11 +203,39 @@ class FalseLiteral(Literal[bool]):
         return hash(self.value)
 
 
+_STRING_ESCAPES = {
+    "\\": "\\\\",
+    "'": "\\'",
+    "\b": "\\b",
+    "\f": "\\f",
+    "\n": "\\n",
+    "\r": "\\r",
+    "\t": "\\t",
+}
+
+
+def _escape_string(value: str) -> str:
+    """Return _value_ escaped for use inside a single quoted Liquid string literal."""
+    buf: list[str] = []
+    for ch in value:
+        if ch in _STRING_ESCAPES:
+            buf.append(_STRING_ESCAPES[ch])
+        elif ord(ch) < 0x20 or ord(ch) == 0x7F:  # noqa: PLR2004
+            buf.append(f"\\u{ord(ch):04x}")
+        else:
+            buf.append(ch)
+    # `${` would start an interpolated expression.
+    return "".join(buf).replace("${", "\\${")
+
+
 class StringLiteral(Literal[str]):
     __slots__ = ()
 
     def __init__(self, token: TokenT, value: str):
         super().__init__(token, value)
+
+    def __str__(self) -> str:
+        return f"'{_escape_string(self.value)}'"
 
     def __eq__(self, other: object) -> bool:
         return isinstance(other, StringLiteral) and self.value == other.value
@@ -384,12 +412,11 @@ class TemplateString(Expression):
         return isinstance(other, TemplateString) and self.template == other.template
 
     def __str__(self) -> str:
-        return repr(
-            "".join(
-                e.value if isinstance(e, StringLiteral) else f"${{{e}}}"
-                for e in self.template
-            )
+        body = "".join(
+            _escape_string(e.value) if isinstance(e, StringLiteral) else f"${{{e}}}"
+            for e in self.template
         )
+        return f"'{body}'"
 
     def __hash__(self) -> int:
         return hash(tuple(self.template))
